@@ -1,7 +1,8 @@
 SPECIFICATION Spec
 CONSTANTS
   Kinds = {"value", "word", "aview", "sview", "sptr", "aptr", "ptr", "pptr", "sp", "wp"}
-  Kinds2 = {"ptr", "aview"}
+  Kinds2 = {"ptr", "aview", "sview"}
+  MaxForm2 = 2
   Fuel = 400
 INVARIANTS Legality Monitors NonInterference EmitCase
 CHECK_DEADLOCK FALSE
